@@ -38,7 +38,7 @@ type propSpec struct {
 }
 
 var props = map[string]propSpec{
-	"C06": {"conc", true, 8000, 400000, 100 * time.Second, 45 * time.Minute},
+	"C06": {"conc", true, 14000, 400000, 110 * time.Second, 45 * time.Minute},
 	"C13": {"history", false, 24000, 600000, 150 * time.Second, 40 * time.Minute},
 	"C10": {"history", false, 16000, 400000, 120 * time.Second, 30 * time.Minute},
 	"C20": {"history", false, 12000, 300000, 120 * time.Second, 30 * time.Minute},
